@@ -41,7 +41,7 @@ pub fn strategy() -> impl Strategy<Value = Case> {
     ];
     let step = prop_oneof![
         4 => repo.prop_map(Step::Repo),
-        4 => (0u8..3, any::<u16>(), any::<bool>()).prop_map(|(k, i, p)| Step::Update(k, i, p)),
+        4 => (0u8..4, any::<u16>(), any::<bool>()).prop_map(|(k, i, p)| Step::Update(k, i, p)),
         2 => any::<u16>().prop_map(Step::FailingUpdate),
         4 => Just(Step::Show),
         2 => Just(Step::Delete),
@@ -93,6 +93,26 @@ pub fn check(case: &Case, w: usize) -> CheckResult {
                         args.push(sha.clone());
                         classes.insert("update --id <commit>");
                         sha
+                    }
+                    3 => {
+                        // a name git can resolve, stored as given: branch, HEAD, an abbreviated id
+                        let sha = h.head_sha().to_string();
+                        let name = match idx % 4 {
+                            0 => "main".to_string(),
+                            1 => "HEAD".to_string(),
+                            2 => sha[..9.min(sha.len())].to_string(),
+                            _ => {
+                                if h.commits.len() >= 2 {
+                                    "HEAD~1".to_string()
+                                } else {
+                                    "HEAD".to_string()
+                                }
+                            }
+                        };
+                        args.push("--id".into());
+                        args.push(name.clone());
+                        classes.insert("update --id <symbolic name>");
+                        name
                     }
                     _ => {
                         let tok = format!("token-{}", idx);
@@ -283,7 +303,7 @@ pub fn check(case: &Case, w: usize) -> CheckResult {
 }
 
 pub fn run(ctx: &mut Ctx) {
-    ctx.rule = "stateful: up to 20 steps over {commit, edit, create, delete file, checkpoint update (no flags / --id <existing sha> / --id <arbitrary token> / -p), updates that fail while collecting pending changes (nonexistent --git-path), show, checkpoint delete, \
+    ctx.rule = "stateful: up to 20 steps over {commit, edit, create, delete file, checkpoint update (no flags / --id <existing sha> / --id <branch, HEAD, HEAD~1, abbreviated sha> / --id <arbitrary token> / -p), updates that fail while collecting pending changes (nonexistent --git-path), show, checkpoint delete, \
 out delete --all, analyze, run}. model: Option<checkpoint object returned by the last update>. oracle: show == model or fails iff none; update without --id records the harness's own \
 `git rev-parse HEAD`; after delete / out delete --all: show fails, analyze reports checkpointed=false and all targets, run lists and starts every target. \
 non-trivial = >= 2 updates with different results, or a delete after an update followed by analyze/run; distinct by SHA-256"
